@@ -163,6 +163,7 @@ class GatedRun:
         self.doc = render.DocText(case["nodes"])
         self.cs = CaseState(table_of(case["calls"]), gated=True, loop=self.loop)
         self.cs.ctx = ctx if ctx is not None else {"ctx": id(self.cs)}
+        self.cs.ctx["__cs"] = self.cs
         self.task = None
 
     def start(self):
@@ -269,3 +270,62 @@ def run_schedule(world, case, check_serial=False):
                 out.append("root fields not in document order: %r" % (list(data.keys()),))
     info["resp"] = resp
     return out, info, g
+
+
+
+def as_single(multi, i):
+    """request i of a multi case as a plain exec case"""
+    r = multi["reqs"][i]
+    return {"nodes": multi["nodes"], "op": r["op"], "given": r["given"], "overlay": r["overlay"], "data": r["data"],
+            "errs": r["errs"], "nulls": r["nulls"], "calls": r["calls"], "seq": multi["seq"], "lconc": multi["lconc"],
+            "init": r["init"], "hist": []}
+
+
+def run_multi(world, multi):
+    """Several requests in flight on ONE engine, interleaved as TLC prescribes.  Each
+    response is compared with the specification's solo prediction; afterwards each
+    request is re-run alone on the same engine and on a fresh engine."""
+    out = []
+    cfg = {"list_conc": bool(multi["lconc"]), "seq_fields": tuple(sorted(multi["seq"]))}
+    cases = [as_single(multi, i) for i in range(len(multi["reqs"]))]
+    runs = [GatedRun(world, c, cfg) for c in cases]
+    for g in runs:
+        g.start()
+    deviations = 0
+    for h in multi["hist"]:
+        g = runs[h["rid"] - 1]
+        p = tuple(h["p"])
+        if p in g.pending():
+            g.release(p)
+        else:
+            deviations += 1
+    guard = 0
+    while not all(g.done() for g in runs):
+        progressed = False
+        for g in runs:
+            pend = g.pending()
+            if pend:
+                g.release(sorted(pend)[0])
+                progressed = True
+        guard += 1
+        if not progressed or guard > 1000:
+            out.append("deadlock with several requests in flight")
+            for g in runs:
+                if g.task and not g.task.done():
+                    g.task.cancel()
+            main_loop().idle()
+            return out, deviations
+    for i, g in enumerate(runs):
+        resp = g.result()
+        mm = compare_faults(cases[i], resp, g.cs, g.doc)
+        out.extend("request %d (interleaved): %s" % (i + 1, m) for m in mm)
+        # calls of this request carry this request's context only
+        for path, _p, _a, ctx in g.cs.calls:
+            if ctx is not g.cs.ctx:
+                out.append("request %d: resolver %s received another request's context" % (i + 1, list(path)))
+    # afterwards: the same requests alone, same engine
+    for i, c in enumerate(cases):
+        resp, cs, doc = run_plain(world, c, cfg)
+        mm = compare_faults(c, resp, cs, doc)
+        out.extend("request %d (alone, afterwards): %s" % (i + 1, m) for m in mm)
+    return out, deviations
